@@ -407,6 +407,8 @@ func (z *zebraClient) updatePathByNexthopCache(paths []*table.Path) {
 }
 
 func (z *zebraClient) loop() {
+	// whichever way the loop ends, the client's goroutines and its connection go with it
+	defer z.client.Close()
 	w, err := z.server.watch([]WatchOption{
 		WatchBestPath(true),
 		WatchPostUpdate(true, "", ""),
@@ -424,7 +426,15 @@ func (z *zebraClient) loop() {
 		select {
 		case <-z.dead:
 			return
-		case msg := <-z.client.Receive():
+		case msg, ok := <-z.client.Receive():
+			if !ok {
+				// The receiver has closed the channel: the connection to zebra is
+				// gone. A closed channel is always ready, so staying in the loop
+				// would spin.
+				z.server.logger.Warn("connection to zebra is closed",
+					slog.String("Topic", "Zebra"))
+				return
+			}
 			if msg == nil {
 				break
 			}
